@@ -413,6 +413,95 @@ func runC17EmbScalar(c C17Case) string {
 	})
 }
 
+// Named types and the wrapper shape the documentation shows.
+type c17Key string
+type c17Octet uint8
+type c17DocWrap struct {
+	Value   int
+	AnyName []string `ion:",annotations"`
+}
+type c17BadWrap struct {
+	Value   int
+	AnyName []int `ion:",annotations"`
+}
+
+// runC17Named: targets that reflect.StructOf cannot build: a map keyed by a
+// named string type, an array of a named byte type, the annotation wrapper of the
+// Unmarshal documentation (annotations as []string), a wrapper whose annotations
+// field has a type annotations cannot go into.
+func runC17Named(c C17Case) string {
+	st := Stat("C17")
+	st.Eval(true, model.DigestBytes(fmt.Sprintf("c17 named %v %d", c.Binary, c.Via), []byte(c.Val.String())), "cell.named-types", "ion."+c.Val.Kind.String())
+	st.Sample(func() string { return fmt.Sprintf("%s into named-type targets", c.Val.String()) })
+	data := renderValue(c.Val, c.Binary, nil)
+	return drive.Guard2(func() string {
+		v := c.Val
+		// map[c17Key]int
+		var m map[c17Key]int
+		err := ion.Unmarshal(data, &m)
+		if want := conv(drive.TypeDesc{K: "map", Elem: &drive.TypeDesc{K: "int"}}, v); !want.any {
+			if err != nil && !want.errOK {
+				return fmt.Sprintf("Unmarshal of %s into map[Key]int (Key a named string type) fails: %v", v.String(), err)
+			}
+			if err == nil {
+				if want.store == nil {
+					return fmt.Sprintf("Unmarshal of %s into map[Key]int: no error", v.String())
+				}
+				got := map[string]int{}
+				for k, x := range m {
+					got[string(k)] = x
+				}
+				if d := looseDiff(*want.store, drive.ModelOf(reflect.ValueOf(got), drive.HNone)); d != "" {
+					return fmt.Sprintf("Unmarshal of %s into map[Key]int stored %v: %s", v.String(), m, d)
+				}
+			}
+		}
+		// [3]c17Octet
+		var a [3]c17Octet
+		err = ion.Unmarshal(data, &a)
+		if (v.Kind == model.Blob || v.Kind == model.Clob) && !v.IsNull && len(v.Bytes) <= 3 {
+			if err != nil {
+				return fmt.Sprintf("Unmarshal of %s into [3]Octet (Octet a named byte type) fails: %v", v.String(), err)
+			}
+			for i := range a {
+				w := byte(0)
+				if i < len(v.Bytes) {
+					w = v.Bytes[i]
+				}
+				if byte(a[i]) != w {
+					return fmt.Sprintf("Unmarshal of %s into [3]Octet stored %v", v.String(), a)
+				}
+			}
+		}
+		// the documented wrapper
+		var dw c17DocWrap
+		err = ion.Unmarshal(data, &dw)
+		if v.Kind == model.Int && !v.IsNull && fitsInt(v.Int, "int") {
+			if err != nil {
+				return fmt.Sprintf("Unmarshal of %s into the documented wrapper struct{Value int; AnyName []string `ion:\",annotations\"`} fails: %v", v.String(), err)
+			}
+			var wantAnn []string
+			for _, an := range v.Ann {
+				if !an.Known {
+					return "" // an annotation without text has no string
+				}
+				wantAnn = append(wantAnn, an.Text)
+			}
+			if int64(dw.Value) != v.Int.Int64() || fmt.Sprint(dw.AnyName) != fmt.Sprint(wantAnn) {
+				return fmt.Sprintf("Unmarshal of %s into the documented wrapper stored %+v", v.String(), dw)
+			}
+		}
+		// annotations cannot go into []int: an error, not a panic (Guard2 catches the panic)
+		var bw c17BadWrap
+		if err = ion.Unmarshal(data, &bw); err == nil && len(v.Ann) > 0 {
+			return fmt.Sprintf("Unmarshal of %s into a wrapper whose annotations field is []int: no error", v.String())
+		}
+		// interface{} given an empty list: ion-go's own tests pin a nil
+		// []interface{} for Decode of [] (not judged)
+		return ""
+	})
+}
+
 func runC17Bad(c C17Case) string {
 	st := Stat("C17")
 	data := renderValue(c.Val, c.Binary, nil)
@@ -439,6 +528,9 @@ func runC17(c C17Case) string {
 	}
 	if c.T.K == "special:embscalar" {
 		return runC17EmbScalar(c)
+	}
+	if c.T.K == "special:named" {
+		return runC17Named(c)
 	}
 	st := Stat("C17")
 	typ := drive.GoType(c.T)
@@ -872,6 +964,14 @@ func TestC17(t *testing.T) {
 			model.StructV(model.Field{Name: model.S("C17celsius"), Val: model.FloatV(2.5)}, model.Field{Name: model.S("c17celsius2"), Val: model.Int64V(4)}, model.Field{Name: model.S("Station"), Val: model.StrV("y")}),
 			model.StructV(model.Field{Name: model.S("celsius"), Val: model.Int64V(1)}, model.Field{Name: model.S("N"), Val: model.Int64V(9)})) {
 			for _, c := range []C17Case{{T: drive.TypeDesc{K: "special:embscalar"}, Val: v, Binary: false, Via: 0}, {T: drive.TypeDesc{K: "special:embscalar"}, Val: v, Binary: true, Via: 0}} {
+				if !yield(c) {
+					return
+				}
+			}
+		}
+		for _, v := range append(c17Exemplars(), model.Int64V(10).WithAnn(model.S("age")), model.Int64V(7).WithAnn(model.S("a"), model.S("b")), model.ListV(), model.ListV(model.ListV(), model.SexpV()),
+			model.StructV(model.Field{Name: model.S("a"), Val: model.Int64V(1)}, model.Field{Name: model.S("b"), Val: model.Int64V(2)}), model.BlobV([]byte{1, 2, 3}), model.ClobV([]byte{9})) {
+			for _, c := range []C17Case{{T: drive.TypeDesc{K: "special:named"}, Val: v, Binary: false, Via: 0}, {T: drive.TypeDesc{K: "special:named"}, Val: v, Binary: true, Via: 0}} {
 				if !yield(c) {
 					return
 				}
